@@ -34,9 +34,9 @@ const (
 
 // SchedConfig is the part of a replay tuple that concerns scheduling.
 type SchedConfig struct {
-	Policy   string  `json:"policy"`             // uniform | latency | pct | sequential
-	Seed     uint64  `json:"seed"`               // decision stream seed (ignored when Choices != nil)
-	Sticky   float64 `json:"sticky,omitempty"`   // uniform: probability of letting the last task continue
+	Policy   string  `json:"policy"`              // uniform | latency | pct | sequential
+	Seed     uint64  `json:"seed"`                // decision stream seed (ignored when Choices != nil)
+	Sticky   float64 `json:"sticky,omitempty"`    // uniform: probability of letting the last task continue
 	PCTDepth int     `json:"pct_depth,omitempty"` // pct: number of priority change points
 	PCTSpan  int     `json:"pct_span,omitempty"`  // pct: change points are drawn in [0, span)
 	// LatencyMs gives per kind the [min,max] delay in simulated milliseconds.
@@ -54,7 +54,7 @@ type SchedConfig struct {
 	// inside the evaluator belong to the spin back-end, and how often they
 	// are reached is not a function of the seed).
 	YieldSites []string `json:"yield_sites,omitempty"`
-	MaxSteps  int     `json:"max_steps,omitempty"`
+	MaxSteps   int      `json:"max_steps,omitempty"`
 
 	// Choices, when non-nil, replaces every decision of the policy: the
 	// k-th decision among n alternatives is Choices[k] mod n, and 0 once
@@ -67,21 +67,26 @@ type Task struct {
 	ID   int
 	Name string
 	Proc int // simulated process the task belongs to (0 = none)
+	// Key orders tasks for the scheduler: the parent's key followed by the label given
+	// with simhook.Label, or by the ordinal of the spawn among the parent's children.
+	Key string
 
-	gid     uint64
-	ch      chan struct{}
-	kind    Kind
-	site    string
-	detail  string
-	waitRes any
-	wake    int64 // latency policy: simulated ns at which the task becomes due
-	prio    int   // pct policy
-	poison  bool
-	exiting bool
-	done    bool
-	root    bool
-	parkSeq uint64
-	parks   uint64
+	gid       uint64
+	ch        chan struct{}
+	kind      Kind
+	site      string
+	detail    string
+	waitRes   any
+	wake      int64 // latency policy: simulated ns at which the task becomes due
+	prio      int   // pct policy
+	poison    bool
+	exiting   bool
+	done      bool
+	root      bool
+	parkSeq   uint64
+	parks     uint64
+	nextLabel string
+	children  int
 	// SpawnSeq is the global sequence number at which the parent executed
 	// the go statement that created this task (0 for root tasks).
 	SpawnSeq uint64
@@ -163,6 +168,7 @@ type Sched struct {
 }
 
 type pendingSpawn struct {
+	key    string
 	seq    uint64
 	id     int
 	parent *Task
@@ -283,7 +289,7 @@ func (s *Sched) Coin(p float64) bool {
 // before Loop, or from a running task.
 func (s *Sched) Go(name string, proc int, f func()) *Task {
 	s.mu.Lock()
-	t := &Task{ID: s.nextID, Name: name, Proc: proc, root: true}
+	t := &Task{ID: s.nextID, Name: name, Proc: proc, root: true, Key: fmt.Sprintf("%06d:%s", s.nextID, name)}
 	s.nextID++
 	s.tasks = append(s.tasks, t)
 	s.rootsWG++
@@ -354,7 +360,7 @@ func (s *Sched) latency(t *Task, kind Kind) int64 {
 	}
 	// drawn from a per-task stream so that the order in which two tasks
 	// reach their park points cannot change the values
-	tr := NewRand(Mix(Mix(s.cfg.Seed, uint64(t.ID)+1000), t.parks))
+	tr := NewRand(Mix(Mix(s.cfg.Seed, uint64(hashInit.Str(t.Key))), t.parks))
 	us := int64(r[0])*1000 + int64(tr.Intn((r[1]-r[0])*1000+1))
 	if s.cfg.SlowTask != "" && strings.Contains(t.Name+" "+t.detail, s.cfg.SlowTask) && s.cfg.SlowFactor > 1 {
 		us *= int64(s.cfg.SlowFactor)
@@ -411,7 +417,15 @@ func (s *Sched) Spawn(site string) simhook.Token {
 		return 0
 	}
 	s.parkSeq++
-	p := &pendingSpawn{id: s.nextID, parent: t, site: site, seq: s.parkSeq}
+	key := t.Key + "/" + site + ":"
+	if t.nextLabel != "" {
+		key += "=" + t.nextLabel
+		t.nextLabel = ""
+	} else {
+		key += fmt.Sprintf("%06d", t.children)
+	}
+	t.children++
+	p := &pendingSpawn{id: s.nextID, parent: t, site: site, seq: s.parkSeq, key: key}
 	s.nextID++
 	s.pending[site] = append(s.pending[site], p)
 	return simhook.Token(p.id + 1)
@@ -435,14 +449,21 @@ func (s *Sched) Started(site string, tok simhook.Token) {
 			}
 		}
 	} else if len(ps) > 0 {
-		p = ps[0]
-		s.pending[site] = ps[1:]
+		// goroutines started from one site without a token are interchangeable: take the smallest key
+		best := 0
+		for i, q := range ps {
+			if q.key < ps[best].key {
+				best = i
+			}
+		}
+		p = ps[best]
+		s.pending[site] = append(ps[:best:best], ps[best+1:]...)
 	}
 	if p == nil {
 		s.mu.Unlock()
 		return
 	}
-	t := &Task{ID: p.id, Name: p.parent.Name + ">" + site, Proc: p.parent.Proc, gid: g, SpawnSeq: p.seq}
+	t := &Task{ID: p.id, Name: p.parent.Name + ">" + site, Proc: p.parent.Proc, gid: g, SpawnSeq: p.seq, Key: p.key}
 	s.tasks = append(s.tasks, t)
 	s.byGID[g] = t
 	s.mu.Unlock()
@@ -527,6 +548,16 @@ func (s *Sched) At(site string, detail ...string) {
 }
 
 func (s *Sched) NoYield(delta int) {}
+
+func (s *Sched) Label(name string) {
+	t := s.cur()
+	if t == nil {
+		return
+	}
+	s.mu.Lock()
+	t.nextLabel = name
+	s.mu.Unlock()
+}
 
 func (s *Sched) Probe(name string) {
 	s.mu.Lock()
@@ -626,8 +657,8 @@ func (s *Sched) runnable() (cands []*Task, stalled []*Task) {
 		}
 		cands = append(cands, t)
 	}
-	sort.Slice(cands, func(i, j int) bool { return cands[i].ID < cands[j].ID })
-	sort.Slice(stalled, func(i, j int) bool { return stalled[i].ID < stalled[j].ID })
+	sort.Slice(cands, func(i, j int) bool { return cands[i].Key < cands[j].Key })
+	sort.Slice(stalled, func(i, j int) bool { return stalled[i].Key < stalled[j].Key })
 	return
 }
 
@@ -714,7 +745,7 @@ func (s *Sched) Loop() {
 		s.last = t
 		ch := t.ch
 		t.ch = nil
-		s.hash = s.hash.Int(uint64(t.ID)).Str(t.site).Str(t.detail)
+		s.hash = s.hash.Str(t.Key).Str(t.site).Str(t.detail)
 		if s.keepLog {
 			s.log = append(s.log, fmt.Sprintf("%5d %-26s %-7s %s %s", s.step, t.Name, t.kind, t.site, t.detail))
 		}
@@ -739,7 +770,7 @@ func (s *Sched) choose(cands []*Task) int {
 			best := 0
 			for i, t := range cands {
 				b := cands[best]
-				if t.wake < b.wake || (t.wake == b.wake && t.ID < b.ID) {
+				if t.wake < b.wake || (t.wake == b.wake && t.Key < b.Key) {
 					best = i
 				}
 			}
@@ -749,7 +780,7 @@ func (s *Sched) choose(cands []*Task) int {
 		return s.decide(n, func() int {
 			for _, t := range cands {
 				if t.prio == 0 {
-					t.prio = 1000 + NewRand(Mix(s.cfg.Seed, uint64(t.ID)+5000)).Intn(1000000)
+					t.prio = 1000 + NewRand(Mix(s.cfg.Seed, uint64(hashInit.Str(t.Key))+5000)).Intn(1000000)
 				}
 			}
 			best := 0
